@@ -197,7 +197,34 @@ func c02Run(x *runCtx, r *rand.Rand, c c02Config, s c02Scenario) {
 		q.Dev, q.NonceOf, q.Signer, q.Xb = 1, 0, 1, rw.lastXb
 		s.prove(&q)
 		xb = q.Xb
+		// While the owner is refusing this ProveDevice — at the instant it ends the session — a DeviceServiceInfoReady arrives on
+		// the same session, encrypted under the keys that belong to the refused token's key-exchange parameter (the sender of
+		// the token knows them). It must be refused like any other: nothing may have been derived from an unverified token.
+		var during *rawResp
+		if rw.mem != nil && s.name != "honest" {
+			fired := false
+			rw.mem.BeforeInvalidate = func(context.Context, string) {
+				if fired {
+					return
+				}
+				fired = true
+				if _, ok := rw.clients[[2]int{0, q.Xb}]; !ok || q.Xb == 0 {
+					return
+				}
+				q66 := baseReq(0, 66)
+				q66.EncS, q66.EncX, q66.Variant, q66.Hmac, q66.NonceOf = 0, q.Xb, "own-keys", !c.reuse, 0
+				r66 := rw.send(q66)
+				during = &r66
+			}
+		}
 		res := send(q)
+		if rw.mem != nil {
+			rw.mem.BeforeInvalidate = nil
+		}
+		if during != nil && (privileged(*during) || during.effs != "-") {
+			x.r.Violate(rep.Violation{Kind: "oracle", Check: "C02.oracle", Signature: "C02.served-without-proof:" + s.name + ":66:while-64-is-being-refused",
+				Input: input() + " [66 under the refused token's keys sent when the owner starts to end the session]", Impl: during.String(), PropertyFails: true})
+		}
 		proofOK = s.name == "honest"
 		if !proofOK && privileged(res) {
 			x.r.Violate(rep.Violation{Kind: "oracle", Check: "C02.oracle", Signature: "C02.setup-device-without-proof:" + s.name, Input: input(), Impl: res.String(), PropertyFails: true})
